@@ -861,18 +861,35 @@ func orNil(m map[string]val.V, k string) val.V {
 
 // assocIn walks a path of string/keyword keys through nested maps (missing keys are
 // created as maps) and replaces the leaf by leaf(old). ok=false: outside the documented domain.
-func assocIn(root val.V, path []val.V, leaf func(old val.V) R, emptyKeeps bool) (R, bool) {
+func assocIn(root val.V, path []val.V, leaf func(old val.V) R, mixed bool) (R, bool) {
 	if len(path) == 0 {
 		return D(root), true
 	}
-	if root.K != val.Map {
-		return R{}, false
-	}
 	k := path[0]
-	if !isKey(k) {
+	// the documented containers are hash maps and vectors
+	var cur val.V
+	switch root.K {
+	case val.Map:
+		if !isKey(k) {
+			return R{}, false
+		}
+		cur = orNil(root.M, keyOf(k))
+	case val.Vec:
+		if k.K != val.Int {
+			return O(), true
+		}
+		if k.I < 0 || k.I > len(root.L) {
+			return O(), true
+		}
+		if k.I == len(root.L) {
+			return R{}, false // index == count: unspecified (as for assoc)
+		}
+		cur = root.L[k.I]
+	case val.Int, val.Bool, val.Kw, val.Sym:
+		return O(), true // a path that leads through a scalar
+	default:
 		return R{}, false
 	}
-	cur := orNil(root.M, keyOf(k))
 	var nv val.V
 	if len(path) == 1 {
 		r := leaf(cur)
@@ -882,9 +899,16 @@ func assocIn(root val.V, path []val.V, leaf func(old val.V) R, emptyKeeps bool) 
 		nv = r.V
 	} else {
 		if cur.K == val.Nil {
+			if root.K == val.Vec {
+				return R{}, false // a nil element of a vector becomes an empty vector: the next index is == count
+			}
 			cur = val.M(map[string]val.V{})
 		}
-		r, ok := assocIn(cur, path[1:], leaf, emptyKeeps)
+		if !mixed && (cur.K == val.Map || cur.K == val.Vec) && cur.K != root.K {
+			// update-in is only documented for maps nested in maps and vectors nested in vectors
+			return R{}, false
+		}
+		r, ok := assocIn(cur, path[1:], leaf, mixed)
 		if !ok {
 			return R{}, false
 		}
@@ -892,6 +916,11 @@ func assocIn(root val.V, path []val.V, leaf func(old val.V) R, emptyKeeps bool) 
 			return r, true
 		}
 		nv = r.V
+	}
+	if root.K == val.Vec {
+		out := append([]val.V{}, root.L...)
+		out[k.I] = nv
+		return D(vec(out)), true
 	}
 	m := copyMap(root.M)
 	m[keyOf(k)] = nv
